@@ -9,6 +9,8 @@ A leading '!' on a transaction = Commit(true).   e.g.  "w0|w1/r0f/!w1,r0"
 -/
 import SemaModel.C11.Model
 import Std.Data.HashMap
+set_option linter.unusedSimpArgs false
+set_option linter.unusedVariables false
 namespace Sema.C11
 
 structure Cfg where
